@@ -402,6 +402,23 @@ func RunC17(cfg Config) (*ShardResult, error) {
 					res.Violations = append(res.Violations, v)
 				}
 			}
+			// with the PID given, the demuxer needs no rewind: whether the source can seek, or is a *bufio.Reader, must
+			// not matter either (with PID auto-detection it legitimately does: a non-seekable source cannot be rewound)
+			if (reader == "ts" || reader == "ts-pid") && cfg.Mine(Key64(dh, reader, "cross-medium")) {
+				base, _ := EvalRead(reader, d.Data, simio.ReadPlan{Medium: "seekable"})
+				for _, medium := range []string{"plain", "bufio"} {
+					o, _ := EvalRead(reader, d.Data, simio.ReadPlan{Medium: medium})
+					res.Evaluations++
+					res.Probes["cross_medium_pid_given"]++
+					if o.Key() != base.Key() {
+						sc, _ := json.Marshal(ReadScenario{Doc: d.Name, Reader: reader, Data: d.Data, Plan: simio.ReadPlan{Name: "cross-medium", Medium: medium}})
+						res.Violations = append(res.Violations, Violation{Property: "C17", Class: "result-differs",
+							Signature: fmt.Sprintf("C17 %s cross-medium seekable=%s %s=%s", reader, base.Class, medium, o.Class),
+							Detail:    fmt.Sprintf("doc=%s (%d bytes), PID given: a seekable source delivering everything at once -> %s items=%d; a %s source delivering the same bytes at once -> %s items=%d err=%q", d.Name, len(d.Data), base.Class, base.Items, medium, o.Class, o.Items, trunc(o.Err, 160)),
+							Scenario:  sc})
+					}
+				}
+			}
 			for _, medium := range mediaFor(d.Format) {
 				var ref *canon.Outcome
 				for pi, p := range plans {
@@ -660,6 +677,18 @@ func c17Probes(res *ShardResult, d corpus.Doc, p simio.ReadPlan, sr *simio.Reade
 // CheckReadScenario re-evaluates one scenario (replay, minimisation).
 // It returns a violation or nil.
 func CheckReadScenario(sc ReadScenario) *Violation {
+	if sc.Plan.Name == "cross-medium" {
+		base, _ := EvalRead(sc.Reader, sc.Data, simio.ReadPlan{Medium: "seekable"})
+		o, _ := EvalRead(sc.Reader, sc.Data, simio.ReadPlan{Medium: sc.Plan.Medium})
+		if o.Key() == base.Key() {
+			return nil
+		}
+		b, _ := json.Marshal(sc)
+		return &Violation{Property: "C17", Class: "result-differs",
+			Signature: fmt.Sprintf("C17 %s cross-medium seekable=%s %s=%s", sc.Reader, base.Class, sc.Plan.Medium, o.Class),
+			Detail:    fmt.Sprintf("doc=%s (%d bytes), PID given: seekable -> %s items=%d; %s -> %s items=%d err=%q", sc.Doc, len(sc.Data), base.Class, base.Items, sc.Plan.Medium, o.Class, o.Items, trunc(o.Err, 160)),
+			Scenario:  b}
+	}
 	if sc.Plan.Name == "open-kinds" {
 		res := NewShardResult()
 		if vs := c17OpenKinds(Config{Scratch: os.TempDir()}, corpus.Doc{Name: sc.Doc, Format: sc.Reader, Data: sc.Data}, res); len(vs) > 0 {
